@@ -52,6 +52,7 @@ Forms ==
     LitOp("XORLW", 14848, "next"),
     Jump("CALL", 8192, "call"), Jump("GOTO", 10240, "jump") }
 
+After(cpu, prev, form, units) == units
 Skipped(cpu, form, ops) == FALSE
 Unjudged(cpu, form, ops) == FALSE
 \* canonical words only (don't-care bits 0), CALL/GOTO with targets inside the 1 K device
